@@ -61,6 +61,7 @@ FLOORS = {
     'history:nested-collation': (0.10, 'history:base-run'),
     'history:array-map-operand-locking-collation': (0.25, 'history:base-run'),
     'history:hof-consumer-of-collation-result': (0.08, 'history:base-run'),
+    'history:relative-collation-under-two-base-uris': (0.03, 'history:base-run'), 'history:uca-dotted-lang': (0.15, 'history:base-run'),
     'env:canary-asked': (0.2, 'env:query'),
     'env:positive-control-ok': (0.9, 'env:batch'), 'env:grant-then-default-on-one-token': (0.25, 'env:query'),
     'env:dynamic-reference': (0.4, 'env:query'), 'env:granted-evaluation-sees-canary': (0.2, 'env:granted-evaluation'),
@@ -87,10 +88,20 @@ UCA_COLLS = [UCA, UCA + '?lang=C', UCA + '?lang=C;fallback=no', UCA + '?lang=C;f
              UCA + '?lang=C.UTF-8;fallback=no', UCA + '?fallback=no', UCA + '?fallback=maybe',
              UCA + '?lang=a b;fallback=no', UCA + '?lang=%%', UCA + '?lang=en;lang=C;fallback=no',
              UCA + '?lang=C;lang=en;fallback=no', UCA + '?strength=primary;fallback=no',
-             UCA + '?lang=POSIX;fallback=no', UCA + '?fallback=no;lang=C', UCA + '?lang=de-DE;fallback=no']
+             UCA + '?lang=POSIX;fallback=no', UCA + '?fallback=no;lang=C', UCA + '?lang=de-DE;fallback=no',
+             # lang values with dots (locale.encoding and worse) and empty ones, fallback yes / no / absent
+             UCA + '?lang=en_US.UTF-8;fallback=no', UCA + '?lang=en_US.UTF-8;fallback=yes', UCA + '?lang=en_US.UTF-8.x',
+             UCA + '?lang=en_US.UTF-8.x;fallback=no', UCA + '?lang=a.b.c', UCA + '?lang=a.b.c;fallback=no', UCA + '?lang=a.b.c;fallback=yes',
+             UCA + '?lang=.', UCA + '?lang=.;fallback=no', UCA + '?lang=..;fallback=yes', UCA + '?lang=C.UTF-8.;fallback=no',
+             UCA + '?lang=;fallback=yes', UCA + '?lang=C.utf8.extra']
+_DOTTED_LANG = [c for c in UCA_COLLS if '?' in c and ('.' in c.split('?', 1)[1] or c.endswith('lang=') or 'lang=;' in c)]
 LOCALE_COLLS = ['C', 'C.utf8', 'C.UTF-8', 'POSIX', 'it_IT.UTF-8', 'en_US.UTF-8', 'garbage', 'é', '',
                 'http://example.com/unknown', 'a/b', 'C.', '.utf8', 'c', "o'c"]
-ALL_COLLS = NOLOCK_COLLS + UCA_COLLS + LOCALE_COLLS + [None]
+REL_COLLS = ['codepoint', 'html-ascii-case-insensitive', 'collation/codepoint', './codepoint', '../collation/html-ascii-case-insensitive',
+             'UCA?lang=C;fallback=no']
+COLL_BASE = 'http://www.w3.org/2005/xpath-functions/collation/'
+BASE_URIS = [None, COLL_BASE, 'http://www.w3.org/2005/xpath-functions/', 'http://example.com/x/', 'http://www.w3.org/2013/collation/']
+ALL_COLLS = NOLOCK_COLLS + UCA_COLLS + LOCALE_COLLS + REL_COLLS + [None]
 # collations that are certainly available on any glibc host (used where a step must succeed)
 SAFE_LOCKING = ['C', 'C.utf8', 'C.UTF-8', 'POSIX', UCA + '?lang=C;fallback=no']
 
@@ -183,6 +194,12 @@ PLAIN_EXPRS = [
     ('2.0', "string(1234567890123456789012345678901234.5)"), ('2.0', "xs:dayTimeDuration('PT0.000001S') * 1234567890123"),
     ('3.0', "format-number(12345678901234567890123456789012.5, '#.0')"),
     ('2.0', "seconds-from-dateTime(xs:dateTime('2000-01-01T00:00:01.123456789012345678901234567890'))"),
+    # block escapes (converted lazily in a process-global table) ...
+    ('2.0', "matches('a', '\\p{IsBasicLatin}')"), ('2.0', "matches('\u03b1', '\\p{IsGreek}')"), ('2.0', "replace('a\u0436', '\\p{IsCyrillic}', '#')"),
+    ('2.0', "matches('\u00e9', '[\\p{IsLatin-1Supplement}]')"), ('2.0', "matches('a', '\\P{IsBasicLatin}')"), ('2.0', "matches('\u4e00', '\\p{IsCJKUnifiedIdeographs}')"),
+    # ... and the special block NoBlock (all code points outside every block)
+    ('2.0', "matches('a', '\\p{IsNoBlock}')"), ('2.0', "replace('aZ\u03b1#!', '\\P{IsNoBlock}', '#')"), ('2.0', "matches('\u2fe0', '\\p{IsNoBlock}')"),
+    ('2.0', "replace('a\u2fe0\u0436\u4e00', '[\\p{IsNoBlock}\\p{IsGreek}]', '-')"), ('2.0', "matches('\u0436', '^\\P{IsNoBlock}$')"),
     # character classes whose first part is a negated escape followed by another negated escape or a subtraction
     # (their construction works on the process-global category subsets) ...
     ('2.0', "matches('a', '[\\D\\S]')"), ('2.0', "matches('A', '[\\P{Lu}\\P{Ll}]')"), ('2.0', "matches('5', '[\\D-[x]]')"),
@@ -206,7 +223,9 @@ XML_DOCS = [
     '<!DOCTYPE r [<!ENTITY % p "">%p;]><r>x</r>',
 ]
 
-_REGEX_FIRST = [i for i, (_v, e) in enumerate(PLAIN_EXPRS) if "'[\\D" in e or "'[\\P" in e or "'[^\\D-" in e or "'[\\W" in e or "'[\\S-" in e]
+_BLOCK_STEPS = [i for i, (_v, e) in enumerate(PLAIN_EXPRS) if '{Is' in e and 'IsNoBlock' not in e]
+_NOBLOCK_STEPS = [i for i, (_v, e) in enumerate(PLAIN_EXPRS) if 'IsNoBlock' in e]
+_REGEX_FIRST = [i for i, (_v, e) in enumerate(PLAIN_EXPRS) if '{Is' not in e and ("'[\\D" in e or "'[\\P" in e or "'[^\\D-" in e or "'[\\W" in e or "'[\\S-" in e)]
 _REGEX_LATER = [i for i, (_v, e) in enumerate(PLAIN_EXPRS) if i > max(_REGEX_FIRST) and ('matches(' in e or 'replace(' in e or 'tokenize(' in e)]
 
 # --------------------------------------------------------------------------
@@ -433,6 +452,9 @@ def _unicode_digest():
     out = {}
     for name in ('Nd', 'Lu', 'Ll', 'Zs'):          # two-letter categories are stored sets; one-letter ones are rebuilt per call
         out[name] = hash(tuple(us.unicode_category(name)._codepoints))
+    blocks = getattr(us.__dict__.get('__unicode_data'), '_blocks', {})
+    if hasattr(blocks.get('NoBlock'), '_codepoints'):
+        out['block:NoBlock'] = hash(tuple(blocks['NoBlock']._codepoints))
     for func, subset in list(us.__dict__.get('__subsets_cache', {}).items()):
         out['cache:' + getattr(func, '__name__', '?')] = hash(tuple(subset._codepoints))
     return out
@@ -498,6 +520,8 @@ def render_step(step, canary_path='/nonexistent'):
             variables['c'] = c
         else:
             carg = cbang = ', ' + _lit(c)
+        if step.get('base'):
+            pk['base_uri'] = step['base']          # static base URI: relative collation URIs are resolved against it
         a = OPERANDS[step.get('a', 0) % len(OPERANDS)]
         b = OPERANDS[step.get('b', 1) % len(OPERANDS)]
         expr = fmt.replace('{C!}', cbang).replace('{C2}', _lit(step.get('c2', 'C'))).replace('{C}', carg) \
@@ -651,9 +675,15 @@ _opi = st.integers(0, len(OPERANDS) - 1)
 def _step(draw):
     k = draw(st.integers(0, 99))
     base = {'api': draw(_api), 'ver': draw(_ver)}
+    if k < 13:
+        # relative collation URI under a static base URI (several of them meet in one history)
+        return dict(base, k='coll', t=draw(st.sampled_from(['compare', 'contains', 'max', 'distinct-values', 'deep-equal', 'index-of'])),
+                    c=draw(st.sampled_from(REL_COLLS[:2] + REL_COLLS)), base=draw(st.sampled_from(BASE_URIS + [COLL_BASE])),
+                    via=draw(st.sampled_from(['lit', 'var'])), a=draw(_opi), b=draw(_opi))
     if k < 55:
-        return dict(base, k='coll', t=draw(st.sampled_from(sorted(COLL_TEMPLATES))), c=draw(_coll),
-                    via=draw(st.sampled_from(['lit', 'lit', 'var', 'default'])), a=draw(_opi), b=draw(_opi))
+        return dict(base, k='coll', t=draw(st.sampled_from(sorted(COLL_TEMPLATES))), c=draw(st.one_of(_coll, _coll, st.sampled_from(_DOTTED_LANG))),
+                    via=draw(st.sampled_from(['lit', 'lit', 'var', 'default'])), a=draw(_opi), b=draw(_opi),
+                    base=draw(st.sampled_from([None, None, None, COLL_BASE])))
     if k < 72:
         return dict(base, k='nest', t=draw(st.sampled_from(sorted(NESTED_TEMPLATES))),
                     c=draw(st.one_of(_safe, _coll)), c2=draw(st.one_of(_safe, st.sampled_from(ALL_COLLS[:-1]))),
@@ -768,6 +798,14 @@ def _judge_run(case, k, rec, discs):
             if step['k'] == 'coll' and step['t'] in _ARRAY_MAP_TEMPLATES and _coll_class(step['c']) == 'locking':
                 arrmap = True
     if rec is not None:
+        rel = {}
+        for st_ in steps:
+            if st_.get('k') == 'coll' and st_.get('c') in REL_COLLS:
+                rel.setdefault(st_['c'], set()).add(st_.get('base'))
+        if k == 0 and any(len(v) >= 2 for v in rel.values()):
+            rec.cls('history:relative-collation-under-two-base-uris')
+        if k == 0 and any(st_.get('c') in _DOTTED_LANG for st_ in steps):
+            rec.cls('history:uca-dotted-lang')
         classes = ['history:run', 'history:base-run' if k == 0 else 'history:fault-run']
         if fail_then_lock:
             classes.append('history:fail-then-locking-step')
@@ -1565,7 +1603,7 @@ def selftest():
 
 def jobs(tier, seed):
     q = tier == 'quick'
-    plan = {'history': (7, 34) if q else (8, 430), 'env': (2, 60) if q else (2, 1000),
+    plan = {'history': (6, 40) if q else (8, 430), 'env': (2, 60) if q else (2, 1000),
             'entities': (2, 90) if q else (1, 2000), 'threads': (2, 45) if q else (1, 600)}
     out = []
     for chk, (shards, n) in plan.items():
@@ -1573,7 +1611,8 @@ def jobs(tier, seed):
             out.append({'check': chk, 'shard': i, 'n': n, 'seed': derive_seed(seed, 'C19', chk, i)})
     # complete sweep of the state-sensitive plain expressions (every expression x api x decimal precision):
     # sampled histories reach each of them only a few times per run
-    out.append({'check': 'history', 'sweep': 'plain'})
+    out.append({'check': 'history', 'sweep': 'plain', 'part': 0, 'parts': 2})
+    out.append({'check': 'history', 'sweep': 'plain', 'part': 1, 'parts': 2})
     # locale variables of the environment: every configuration in its own exec'ed interpreter (quick: 28, thorough: all 343)
     cfgs = _le_configs(tier, seed)
     k = 2 if q else 4
@@ -1595,13 +1634,29 @@ def _sweep_cases():
             steps = [{'api': api, 'ver': '3.1', 'k': 'plain', 'i': first}] + \
                     [{'api': 'selector' if api == 'select' else 'select', 'ver': '3.1', 'k': 'plain', 'i': j} for j in _REGEX_LATER]
             yield {'cfg': {'lc': 'C', 'prec': 28, 'lxml': False}, 'steps': steps, 'fault': 0}
+    # each block escape first, then every NoBlock probe (NoBlock must not depend on which blocks were used before)
+    for first in _BLOCK_STEPS + [None]:
+        steps = ([{'api': 'select', 'ver': '3.1', 'k': 'plain', 'i': first}] if first is not None else []) + \
+                [{'api': 'selector', 'ver': '3.1', 'k': 'plain', 'i': j} for j in _NOBLOCK_STEPS] + \
+                [{'api': 'select', 'ver': '3.1', 'k': 'plain', 'i': j} for j in _BLOCK_STEPS[:2]]
+        yield {'cfg': {'lc': 'C', 'prec': 28, 'lxml': False}, 'steps': steps, 'fault': 0}
+    # one relative collation URI under the collation base URI, then under no / other base URIs (and the reverse)
+    for rel in REL_COLLS:
+        for order in ([COLL_BASE, None, 'http://example.com/x/', COLL_BASE], [None, COLL_BASE, 'http://www.w3.org/2005/xpath-functions/', None]):
+            steps = [{'api': api, 'ver': '3.1', 'k': 'coll', 't': t, 'c': rel, 'via': via, 'a': 0, 'b': 2, 'base': b}
+                     for b in order for api, t, via in (('select', 'compare', 'lit'), ('token', 'contains', 'var'))]
+            yield {'cfg': {'lc': 'C', 'prec': 28, 'lxml': False}, 'steps': steps, 'fault': 0}
+    # dotted / empty lang values of UCA collations, each followed by a lock-taking probe
+    for lo in range(0, len(_DOTTED_LANG), 4):
+        steps = [{'api': 'select', 'ver': '3.1', 'k': 'coll', 't': 'compare', 'c': c, 'via': 'lit', 'a': 0, 'b': 1} for c in _DOTTED_LANG[lo:lo + 4]]
+        yield {'cfg': {'lc': 'C', 'prec': 28, 'lxml': False}, 'steps': steps, 'fault': 'all'}
 
 
 def run_job(job, rec: Recorder):
     chk = job['check']
     jd = _JUDGES[chk]
     if job.get('sweep'):
-        for case in _sweep_cases():
+        for case in list(_sweep_cases())[job.get('part', 0)::job.get('parts', 1)]:
             rec.discs_of(chk, case, jd(case, rec))
             rec.cls('history:plain-sweep')
         return
@@ -1615,7 +1670,7 @@ def run_job(job, rec: Recorder):
 def shrink_job(job, bucket, budget):
     chk = job['check']
     if job.get('sweep'):
-        for case in _sweep_cases():
+        for case in list(_sweep_cases())[job.get('part', 0)::job.get('parts', 1)]:
             for d in _JUDGES[chk](case):
                 if d.bucket == bucket:
                     return case, d
